@@ -101,6 +101,8 @@ def compare(spec, o):
     if o is None:
         return "no observation"
     kind = o.get("kind")
+    if kind == "hang" and (spec["kind"] == "unrep" or spec.get("class") == "limit"):
+        return None      # bound only by the iteration limit: slow is not wrong (non-termination is judged by C04's probes)
     if kind in ("panic", "hang"):
         return "%s: %s" % (kind, o.get("msg", "")[:160])
     if spec["kind"] == "unrep":
